@@ -1139,6 +1139,33 @@ def _reduction(op):
                         best = x
                 if decided:
                     return best
+        if t.startswith("builtins.") and op in ("max", "min") and "key" not in kw and (
+                (isinstance(v, Seq) and any(not isinstance(x, Sc) for x in v.items)) or (isinstance(v, Arr) and v.ndim >= 2)):
+            # the extreme of a sequence of sequences is lexicographic (the first row that is not beaten), not the extreme entry
+            if isinstance(v, Seq) and all(isinstance(x, Seq) and all(isinstance(y, Sc) and y.e is not None for y in x.items)
+                                          for x in v.items) and v.items:
+                def beats(x, best):
+                    for a_, b_ in zip(x.items, best.items):
+                        gt = I.decide(sym.Cmp(">" if op == "max" else "<", a_.e, b_.e))
+                        eq = I.decide(sym.Cmp("==", a_.e, b_.e))
+                        if gt is None or eq is None:
+                            return None
+                        if gt:
+                            return True
+                        if not eq:
+                            return False
+                    return (len(x.items) > len(best.items)) if op == "max" else (len(x.items) < len(best.items))
+                best = v.items[0]
+                for x in v.items[1:]:
+                    b_ = beats(x, best)
+                    if b_ is None:
+                        best = None
+                        break
+                    if b_:
+                        best = x
+                if best is not None:
+                    return best
+            return I.unknown("extreme-of-sequences", n)
         axis = _kw(kw, pos, "axis", 1) if not t.startswith("builtins.") else None
         I.event("reduce", n, op=op, arg=v, axis=axis)
         if "key" in kw:
@@ -2042,7 +2069,10 @@ def array_attr(I, base: Val, attr: str, node) -> Val:
         return Sc(sym.Num(len(s))) if s is not None else I.unknown("ndim", node)
     if attr == "T":
         if isinstance(base, Arr):
-            return Arr(tuple(reversed(base.axes)), base.elem, "nd", base.uid)
+            t_ = Arr(tuple(reversed(base.axes)), base.elem, "nd", base.uid)
+            if base.kind == "nd":
+                t_.view_of = getattr(base, "view_of", None) or base   # the transpose shares the array's memory
+            return t_
         a = arrays.to_arr(base)
         if isinstance(a, Arr):
             return Arr(tuple(reversed(a.axes)), a.elem, "nd")
